@@ -446,6 +446,12 @@ def run(ctx):
 
     check_element_guards(ctx, reach)
     check_local_map_index(ctx, reach)
+    check_key_agreement(ctx)
+    # the parser's tabled asserts (`!types.is_empty()` …) rest on decisions taken through a Lookahead: a stale lookahead
+    # makes them reachable (C12's R12.8 typestate, recorded here as R14.7)
+    import c12_grammar
+    from c01 import ctx_alias
+    c12_grammar.lookahead_freshness(ctx_alias(ctx, "R14.7"), None)
 
     # ---- R14.4 recursion
     comps = sccs(db, {n for n in reach if n in db.fns})
@@ -462,6 +468,49 @@ def run(ctx):
         else:
             ctx.ob("R14.4", key, False, "unbounded recursion driven by input nesting (%s); deep nesting overflows the stack" % desc, site=db.fns[c[0]].span)
     ctx.ob("R14.4", "count", len(comps) >= 8, "recursive SCCs reachable from the entry points: %d" % len(comps), nontrivial=False)
+
+
+def check_key_agreement(ctx):
+    """R14.8: writer/reader key agreement for the encoder's name-keyed scope maps.  `Scope::resources` and
+    `Scope::instances` are read with the panicking `Index` operator under a key taken from the type model
+    (`Resource::name`, `Interface::id`); every insert into the same map must be keyed by the same model field, or a
+    reader misses and `encode` panics with "no entry found for key"."""
+    from prov import narrow
+    db, prov = ctx.db, ctx.prov
+    R, W = defaultdict(list), defaultdict(list)
+    for f in db.fns.values():
+        if f.crate != "wac_graph" or f.from_expansion:
+            continue
+        for t in f.calls():
+            p = t.path or ""
+            if not ("IndexMap" in p or "HashMap" in p):
+                continue
+            nm = p.rsplit("::", 1)[-1]
+            if nm not in ("index", "insert", "entry"):
+                continue
+            recv = narrow(prov, f, t.args[0])
+            mf = sorted(n for n, o, v in recv.fields if o == "wac_graph::encoding::Scope")
+            if len(mf) != 1:
+                continue
+            ks = prov.slice(f, t.args[1])
+            sig = {"%s.%s" % (o.split("::")[-1], n) for n, o, v in ks.fields if o.startswith("wac_types::component::") and n not in ("0", "1")}
+            (R if nm == "index" else W)[mf[0]].append((f, t, sig))
+    n = 0
+    for m in sorted(R):
+        ctx_fields = set.intersection(*[sig for _, _, sig in R[m]]) if R[m] else set()
+        if not ctx_fields:
+            ctx.ob("R14.8", "key|%s|readers" % m, False, "the indexing readers of Scope::%s share no model field in their keys: %s" % (m, [sorted(s_) for _, _, s_ in R[m]]))
+            continue
+        for f, t, sig in W[m]:
+            n += 1
+            ctx.touch(f)
+            ok = ctx_fields <= sig
+            ctx.ob("R14.8", "key|%s|%s" % (m, f.id.rsplit("::", 1)[-1]), ok,
+                   "inserted under the key the indexing readers use (%s)" % ", ".join(sorted(ctx_fields)) if ok else
+                   "Scope::%s is indexed (panicking `[]`) by %s in %s, but this insert is keyed by %s: when the two names differ the reader finds no entry and encode panics"
+                   % (m, ", ".join(sorted(ctx_fields)), ", ".join(sorted({g.id.rsplit("::", 1)[-1] for g, _, _ in R[m]})), sorted(sig) or "a value not taken from the type model"),
+                   site="%s in %s" % (t.span, f.id))
+    ctx.ob("R14.8", "count", n >= 4 and {"resources", "instances"} <= set(R), "name-keyed scope-map inserts checked: %d (maps indexed: %s)" % (n, sorted(R)), nontrivial=False)
 
 
 def check_element_guards(ctx, reach):
